@@ -10,18 +10,20 @@ H = os.path.join(VERIF, "harness")
 def spec(tier):
     cap = 180 if tier == "quick" else 2700
     hs = [Harness("c05_perm_empty", timeout=cap), Harness("c05_perm_1", timeout=cap, optional_covers=()),
-          Harness("c05_perm_2", timeout=cap), Harness("c05_perm_3", timeout=cap)]
+          Harness("c05_perm_2", timeout=cap), Harness("c05_perm_3", timeout=cap),
+          Harness("c05_rank_4", timeout=cap, note="rank-based oracle: every arrangement maps to a distinct lexicographic rank, n! calls"),
+          Harness("c05_rank_5", timeout=max(cap, 900), mem_gb=16, note="rank-based oracle, n = 5 (120 arrangements)")]
     if tier == "thorough":
-        hs.append(Harness("c05_perm_4", timeout=cap))
+        hs.append(Harness("c05_perm_4", timeout=cap, note="pairwise-distinctness oracle, n = 4"))
     return kprop.KSpec(
         package="sophia_c14n", crate_dir="c14n",
         harness_files={"c14n": [os.path.join(H, "c14n", "c05_perm.rs")]},
         harnesses=hs, jobs=4,
         encoded=["sophia_c14n::_permutations::for_each_permutation_of", "sophia_c14n::_permutations::permutations (Heap's algorithm, recursive)"],
-        bounds=["n in {0,1,2,3}%s pairwise distinct symbolic u8 values" % (" and 4" if tier == "thorough" else ""),
-                "callback failure position symbolic in 0..=n!", "unwind 26 (unwinding assertions on)"],
+        bounds=["n in {0,1,2,3,4,5} pairwise distinct symbolic u8 values (n = 4, 5 with the rank oracle; n = 4 also with the pairwise oracle in the thorough tier)",
+                "callback failure position symbolic in 0..=n!", "unwind n!+2 (unwinding assertions on)"],
         outside=["everything else in C05's statement: the iff, both hash functions, the issuer, relabel_with, canonical N-Quads escaping "
-                 "(SHA-2, BTreeMap<Rc<str>>, format! on symbolic data do not finish in CBMC: DESIGN.md probes 19, 20, 24)", "n > 4"],
+                 "(SHA-2, BTreeMap<Rc<str>>, format! on symbolic data do not finish in CBMC: DESIGN.md probes 19, 20, 24)", "n > 5"],
         assumptions=["the callback stands for hash_n_degree_quads' closure"],
     )
 
